@@ -116,7 +116,7 @@ def install(R):
         st = fr.st
         v = eng.seq_V(args[0], fr)
         r = z3.Const(fresh_name("drawn"), V)
-        st.assume(T.sin(v, r))
+        st.assume(T.sin(T.iter_of(v), r))     # the elements a loop over v visits (v itself for a sequence)
         st.events.append(Event("call", "numpy.random.choice", list(args), {}, getattr(node, "lineno", None), extra={"result": mk_V(r)}))
         return [Outcome("normal", st, val=mk_V(r))]
     R.externals["numpy.random.choice"] = ext_choice
@@ -126,6 +126,15 @@ def install(R):
 def install2(R):
     S = R.spec
 
+    def _choice_ok(choices, el):
+        """el is what the argument's generator produced (callable(choices), as the builtin decides it) or one of its choices"""
+        return z3.Or(z3.And(T.is_VObj(choices), T.tag(choices) == T.TAG["func"]), T.sin(T.iter_of(choices), el))
+
+    def choice_ok(eng, fr, combos, k, el):
+        cv = eng.as_V(combos)
+        return mk_bool(_choice_ok(T.mat(cv, T.sget(T.mkeys(cv), eng.as_int(k, fr))), eng.as_V(el)))
+    S["ChoiceOk"] = choice_ok
+
     def drawn_from(eng, fr, combos, cases, n):
         """every case has one value per argument, each taken from that argument's choices (or produced by its generator)"""
         cv = eng.as_V(combos)
@@ -133,24 +142,37 @@ def install2(R):
         ks = T.mkeys(cv)
         i, j = z3.Int(fresh_name("i")), z3.Int(fresh_name("j"))
         el = T.sget(T.sget(cs, i), j)
-        choices = T.mat(cv, T.sget(ks, j))
-        callable_ = z3.Function("ext:callable/1", V, V)
-        ok = z3.Or(T.bval(callable_(choices)), T.sin(T.iter_of(choices) if hasattr(T, "iter_of") else choices, el))
-        return mk_bool(z3.And(T.slen(cs) == eng.as_int(n, fr),
+        ok = _choice_ok(T.mat(cv, T.sget(ks, j)), el)
+        nn = eng.as_int(n, fr)
+        return mk_bool(z3.And(T.slen(cs) == z3.If(nn >= 0, nn, 0),       # range(n): no case at all for n <= 0
                               z3.ForAll([i], z3.Implies(z3.And(0 <= i, i < T.slen(cs)), T.slen(T.sget(cs, i)) == T.slen(ks)), patterns=[T.sget(cs, i)]),
                               z3.ForAll([i, j], z3.Implies(z3.And(0 <= i, i < T.slen(cs), 0 <= j, j < T.slen(ks)), ok), patterns=[el])))
     S["DrawnFrom"] = drawn_from
 
-    R.add(FARM + "Sampler.gen_cases_fnargs", cls="Sampler", result="V", assumed=True,
+    R.add(FARM + "Sampler.gen_cases_fnargs", cls="Sampler", result="V", props=["C15"],
+          loops={"comp1": dict(idx="_j", inv=[
+                     ("one_value_per_argument_so_far", "is_seq(_acc_comp1) and slen(_acc_comp1) == _j and "
+                                                       "forall(lambda k: implies(0 <= k and k < _j, ChoiceOk(combos, k, sget(_acc_comp1, k))))")]),
+                 "comp0": dict(idx="_i", inv=[
+                     ("cases_so_far", "is_seq(_acc_comp0) and slen(_acc_comp0) == _i and "
+                                      "forall(lambda t: implies(0 <= t and t < _i, slen(sget(_acc_comp0, t)) == slen(combos.keys()))) and "
+                                      "forall(lambda t, k: implies(0 <= t and t < _i and 0 <= k and k < slen(combos.keys()), "
+                                      "ChoiceOk(combos, k, sget(sget(_acc_comp0, t), k))))")])},
           ensures=[("names_and_draws", "slen(result) == 2 and DrawnFrom(MergedCombos(self, combos), sget(result, 1), n) and "
-                                       "sget(result, 0) == MergedCombos(self, combos).keys()")],
+                                       "sget(result, 0) == MergedCombos(self, combos).keys()"),
+                   ("two_components", "slen(result) == 2"),
+                   ("names_are_the_merged_keys_in_order", "sget(result, 0) == MergedCombos(self, combos).keys()"),
+                   ("one_case_per_requested_sample", "slen(sget(result, 1)) == (n if n >= 0 else 0)"),
+                   ("every_value_from_its_own_choices", "DrawnFrom(MergedCombos(self, combos), sget(result, 1), n)")],
           raises={"AnyError": dict()},
-          notes="nested generator expressions over numpy.random.choice / user generators: outside the executor's subset; summary exercised by replay/C15.py")
+          notes="both generator expressions are cut by loop invariants (comp0 over range(n), comp1 over the merged choices); numpy.random.choice(v) is assumed to return an element of v")
 
     def merged_combos(eng, fr, smp, combos):
         cv = eng.as_V(combos)
-        d = eng.as_V(eng.heap_get(fr.st, smp, "default_combos"))
-        return SV("V", z3.If(T.is_VNone(cv), d, T.mupdate(d, cv)), meta={"coll": "map"})
+        old = fr.old if fr.old is not None else fr.st          # the defaults the Sampler held when the call started
+        d = eng.as_V(eng.heap_get(old, smp, "default_combos"))
+        # {**default_combos, **({} if combos is None else dict(combos))}: the given choices override the defaults, key by key
+        return SV("V", T.mupdate(T.mupdate(T.mempty, d), z3.If(T.is_VNone(cv), T.mempty, T.asdict(cv))), meta={"coll": "map"})
     S["MergedCombos"] = merged_combos
 
     R.add(FARM + "Sampler.sample_combos", cls="Sampler", result="V", props=["C15", "C06"],
@@ -182,7 +204,7 @@ def install2(R):
                          "from the allowed choices, output columns = function at those arguments, disk == memory, a new Sampler continues from the file",
         not_decided=["pandas: concat(ignore_index, sort) appends rows, to_<engine>/read_<engine> round trip (csv changes dtypes) -- assumed / bounded replay only",
                      "numpy.random.choice returns an element of its argument (assumed)",
-                     "gen_cases_fnargs (nested generator expressions) is covered by the bounded replay only"],
+                     "user-supplied generators (callable choices) return arbitrary values and may raise"],
         assumptions=["the table file is a whole value on the ghost file system"],
     )
     return R
